@@ -1,13 +1,14 @@
 import SqlModel.Pipeline
 import SqlProofs.SplitPartition
 import SqlProps.C01
+import SqlProofs.SplitNonWs
 /-!
 # C04 — split() partitions the input and agrees with parse()
 
 Proved here: the statements returned by lexer ∘ splitter (the flat statements both `split()` and `parse()` start from)
 partition the input text — in order, nothing lost or duplicated, only a whitespace-typed tail dropped, no statement empty.
 `split()` and `parse()` share that stage by construction (`FilterStack.run`); the remaining link `str(parse(s)[i]) = text of statement i`
-is grouping's text preservation (C02).  Not theorems yet (sampled by the oracle): pieces are non-empty after `strip()`, and the
+is grouping's text preservation (C02).  Pieces are non-empty after `strip()` (`pieces_nonempty`).  Not a theorem (sampled by the oracle): the
 re-split clause, which the unchanged code violates for context-sensitive lexemes (known findings KF-C04-1/2).
 -/
 namespace Sql.C04
@@ -33,5 +34,30 @@ theorem statements_partition_text (s : Array Cp) (sts : List (List Tok)) (h : le
   simp only [List.map_append, List.flatten_append, List.map_flatten, List.flatten_flatten]
   simp [List.map_map, Function.comp_def, stmtText]
   rfl
+
+/-- **pieces are non-empty.** Every string `split()` returns is non-empty (after the `strip()` that `split()` applies): a statement the
+splitter yields always contains a token that is not of a Whitespace type (the `;`/`GO` that ended it, or — for the last one — by the final
+`not all(is_whitespace)` test), and the lexer gives such a token a first character that is not `str.isspace`
+(whitespace characters are always taken by the Newline/Whitespace rules; `SqlProofs/LexScan.lean`, `SqlProofs/SplitNonWs.lean`). -/
+theorem pieces_nonempty (s : Array Cp) (ps : List Text) (h : split s = .ok ps) : ∀ p ∈ ps, p ≠ [] := by
+  unfold split at h
+  cases hl : lexSplit s with
+  | error e => rw [hl] at h; exact absurd h (by simp [Except.map])
+  | ok sts =>
+    rw [hl] at h
+    simp only [Except.map] at h
+    injection h with h
+    subst h
+    intro p hp
+    simp only [List.mem_map, Function.comp] at hp
+    obtain ⟨st, hst, rfl⟩ := hp
+    obtain ⟨c, hc, hsp⟩ := stmt_has_nonspace s sts hl st hst
+    exact pyStrip_ne_nil _ c hc hsp
+
+/-- the lexer fact behind it: in the output of the lexer, every token whose type is not in the Whitespace hierarchy starts with a
+character that is not `str.isspace` -/
+theorem nonws_token_starts_nonspace (s : Array Cp) (ts : List Tok) (h : lex defaultCfg s = .ok ts) :
+    ∀ t ∈ ts, t.tt.isIn T.Whitespace = false → ∃ c rest, t.val = c :: rest ∧ isSpace c = false :=
+  lex_nonws_first s ts h
 
 end Sql.C04
